@@ -31,6 +31,15 @@ package catalyst
 //	    P's block hash;
 //	(5) the versioned GetPayload endpoint returns the same block.
 //
+// TestVerifC36ForkCrossing runs the same rounds and the same oracle on node instances
+// whose genesis schedules the next fork(s) a few seconds after the genesis time
+// (Cancun -> Prague -> Osaka -> BPO1 -> BPO2, one or two time-based activations, BPO
+// entries with drawn target / max / update fraction) and whose genesis header carries a
+// hot blob market (excess blob gas / blob gas used around the old and the new target).
+// The payload timestamps lie before, exactly at (or shortly after) and after the
+// activation times, so the first block of a fork is built on a parent of the previous
+// fork; each round talks to the engine API version of its own timestamp.
+//
 // Bounded waits (payload construction, pool reset) that expire make the run
 // VERIF-INCONCLUSIVE, never a violation.
 
@@ -61,6 +70,7 @@ import (
 	"github.com/ethereum/go-ethereum/internal/verifx/worldgen"
 	"github.com/ethereum/go-ethereum/miner"
 	"github.com/ethereum/go-ethereum/params"
+	"github.com/ethereum/go-ethereum/params/forks"
 	"github.com/ethereum/go-ethereum/trie"
 	"github.com/holiman/uint256"
 	"pgregory.net/rapid"
@@ -132,6 +142,148 @@ var c36Forks = []c36Fork{
 			return api.NewPayloadV5(context.Background(), *e.ExecutionPayload, h, r, c36Requests(e))
 		},
 	},
+}
+
+// c36ForkAt selects the engine API version set for a payload with the given timestamp.
+func c36ForkAt(cfg *params.ChainConfig, ts uint64) c36Fork {
+	switch f := cfg.LatestFork(ts); {
+	case f >= forks.Amsterdam:
+		return c36Forks[3]
+	case f >= forks.Osaka: // Osaka, BPO1, BPO2
+		return c36Forks[2]
+	case f >= forks.Prague:
+		return c36Forks[1]
+	default:
+		return c36Forks[0]
+	}
+}
+
+// ---- fork-crossing instances -------------------------------------------------------
+
+func c36Pick(rt *rapid.T, label string, w []int) int {
+	total := 0
+	for _, x := range w {
+		total += x
+	}
+	r := ep.Uniform(rt, label, total)
+	for i, x := range w {
+		if r < x {
+			return i
+		}
+		r -= x
+	}
+	return len(w) - 1
+}
+
+// c36Seq is the activation order of the time-based forks the crossing instances use.
+var c36Seq = []string{"cancun", "prague", "osaka", "bpo1", "bpo2"}
+
+// c36BPOConfigs are the blob parameter sets a BPO entry is drawn from: the defaults of
+// BPO1..BPO3, a schedule equal to Prague's (a fork that changes nothing), one with a
+// lower target than Prague and a minimal one.
+var c36BPOConfigs = []params.BlobConfig{
+	{Target: 10, Max: 15, UpdateFraction: 8346193},
+	{Target: 14, Max: 21, UpdateFraction: 11684671},
+	{Target: 21, Max: 32, UpdateFraction: 20609697},
+	{Target: 6, Max: 9, UpdateFraction: 5007716},
+	{Target: 4, Max: 8, UpdateFraction: 4173096},
+	{Target: 1, Max: 2, UpdateFraction: 1112826},
+}
+
+type c36Crossing struct {
+	name  string   // e.g. "prague>osaka>bpo1"
+	base  string   // worldgen variant of the rules active at genesis
+	times []uint64 // activation times, ascending (two forks may share one)
+	plan  []uint64 // payload timestamps, strictly ascending
+	desc  string
+}
+
+// c36DrawCrossing draws the fork schedule and applies it to cfg (a private copy).
+func c36DrawCrossing(rt *rapid.T, cfg *params.ChainConfig, base int, genesisTime uint64) *c36Crossing {
+	x := &c36Crossing{name: c36Seq[base], base: c36Seq[min(base, 2)]}
+	bs := *cfg.BlobScheduleConfig
+	cfg.BlobScheduleConfig = &bs
+	set := func(i int, t uint64) {
+		tp := new(uint64)
+		*tp = t
+		switch c36Seq[i] {
+		case "prague":
+			cfg.PragueTime = tp
+		case "osaka":
+			cfg.OsakaTime = tp
+		case "bpo1":
+			bc := c36BPOConfigs[ep.Uniform(rt, "bpo1-config", len(c36BPOConfigs))]
+			cfg.BPO1Time, bs.BPO1 = tp, &bc
+		case "bpo2":
+			bc := c36BPOConfigs[ep.Uniform(rt, "bpo2-config", len(c36BPOConfigs))]
+			cfg.BPO2Time, bs.BPO2 = tp, &bc
+		}
+	}
+	if base == 3 {
+		set(3, 0) // BPO1 active from genesis
+	}
+	nforks := 1
+	if len(c36Seq)-1-base >= 2 && c36Pick(rt, "crossing-forks", []int{3, 2}) == 1 {
+		nforks = 2
+	}
+	at := genesisTime + []uint64{2, 3, 6, 12, 24}[ep.Uniform(rt, "fork-delay", 5)]
+	for k := 1; k <= nforks; k++ {
+		if k == 2 {
+			at += []uint64{0, 1, 4, 12}[ep.Uniform(rt, "fork-delay-2", 4)]
+		}
+		set(base+k, at)
+		x.times = append(x.times, at)
+		x.name += ">" + c36Seq[base+k]
+	}
+	if err := cfg.CheckConfigForkOrder(); err != nil {
+		rt.Fatalf("VERIF-HARNESS-BUG: crossing configuration rejected: %v", err)
+	}
+
+	// Payload timestamps: 0-2 blocks of the old fork, one block at (or 1 / 5 seconds
+	// after) every activation time, one block after.
+	prev := genesisTime
+	for i := 0; i < 2 && x.times[0]-prev >= 2; i++ {
+		if c36Pick(rt, "pre-fork-block", []int{1 + 2*i, 3 - i}) == 0 {
+			break
+		}
+		prev += 1 + uint64(ep.Uniform(rt, "pre-fork-step", int(x.times[0]-prev-1)))
+		x.plan = append(x.plan, prev)
+	}
+	for i, f := range x.times {
+		if i > 0 && f == x.times[i-1] {
+			continue
+		}
+		t := f + []uint64{0, 0, 0, 1, 5}[ep.Uniform(rt, "fork-block-offset", 5)]
+		if i+1 < len(x.times) && x.times[i+1] > f && t >= x.times[i+1] {
+			t = f
+		}
+		if t <= prev {
+			t = prev + 1
+		}
+		x.plan = append(x.plan, t)
+		prev = t
+	}
+	x.plan = append(x.plan, prev+[]uint64{1, 5, 12, 1000}[ep.Uniform(rt, "time-step", 4)])
+	x.desc = fmt.Sprintf("%s activation times %v (genesis time %d), payload timestamps %v, blob schedule cancun=%v prague=%v bpo1=%v bpo2=%v",
+		x.name, x.times, genesisTime, x.plan, bs.Cancun, bs.Prague, bs.BPO1, bs.BPO2)
+	return x
+}
+
+// c36ExtraPlan synthesises a block plan when the crossing needs more rounds than the
+// world has block plans.
+func c36ExtraPlan(rt *rapid.T, w *worldgen.World) *worldgen.BlockPlan {
+	bp := &worldgen.BlockPlan{Coinbase: worldgen.FreshCoinbase, CoinbaseClass: "fresh"}
+	if rapid.Bool().Draw(rt, "extra-coinbase-sender") {
+		bp.Coinbase, bp.CoinbaseClass = worldgen.Keys[ep.Uniform(rt, "coinbase-key", len(worldgen.Keys))].Addr, "sender"
+	}
+	for k, nw := 0, ep.Uniform(rt, "extra-withdrawals", 3); k < nw; k++ {
+		bp.Withdrawals = append(bp.Withdrawals, &types.Withdrawal{Validator: uint64(200 + k), Address: w.Pool[ep.Uniform(rt, "withdrawal-address", len(w.Pool))],
+			Amount: []uint64{0, 1, 1_000_000_000}[ep.Uniform(rt, "withdrawal-amount", 3)]})
+	}
+	for k, ntx := 0, ep.Uniform(rt, "extra-ntxs", 5); k < ntx; k++ {
+		bp.Txs = append(bp.Txs, w.DrawPlan(rt))
+	}
+	return bp
 }
 
 // ---- extra accounts ----------------------------------------------------------------
@@ -311,42 +463,91 @@ func TestVerifC36Build(t *testing.T) {
 		if run.incon != "" {
 			return // a bounded wait expired earlier: the run is inconclusive, stop spending time
 		}
-		run.one(rt, variants)
+		run.one(rt, variants, false)
 	})
 	if run.incon != "" {
 		t.Fatalf("VERIF-INCONCLUSIVE bounded wait expired: %s", run.incon)
 	}
 }
 
-func (r *c36Run) one(rt *rapid.T, variants []worldgen.Variant) {
-	c := r.st.Case()
-	w := worldgen.Draw(rt, worldgen.Options{Variants: variants, MaxBlocks: 3, MaxTxs: 10, NoBlobs: true, NoUncles: true})
-	var fork c36Fork
-	for _, f := range c36Forks {
-		if f.variant.Name == w.Variant.Name {
-			fork = f
+// TestVerifC36ForkCrossing: node instances that cross one or two fork activations.
+func TestVerifC36ForkCrossing(t *testing.T) {
+	run := &c36Run{t: t, st: vs.New("C36", t)}
+	vs.Check(t, 0.4, func(rt *rapid.T) {
+		if run.incon != "" {
+			return
 		}
+		run.one(rt, nil, true)
+	})
+	if run.incon != "" {
+		t.Fatalf("VERIF-INCONCLUSIVE bounded wait expired: %s", run.incon)
 	}
-	c.Class("fork:" + w.Variant.Name)
+}
+
+const c36GenesisTime = 9000
+
+func (r *c36Run) one(rt *rapid.T, variants []worldgen.Variant, crossing bool) {
+	c := r.st.Case()
+	base := 0
+	if crossing {
+		base = ep.Uniform(rt, "crossing-base", 4) // cancun, prague, osaka, bpo1 active at genesis
+		variants = []worldgen.Variant{worldgen.VariantByName(c36Seq[min(base, 2)])}
+	}
+	w := worldgen.Draw(rt, worldgen.Options{Variants: variants, MaxBlocks: 3, MaxTxs: 10, NoBlobs: true, NoUncles: true})
 	cfg := w.Config
-	isPrague := w.Variant.Fork >= ep.Prague
-	isOsaka := w.Variant.Fork >= ep.Osaka
-	isAmsterdam := w.Variant.Fork >= ep.Amsterdam
+	var cross *c36Crossing
+	if crossing {
+		cc := *w.Config
+		cfg = &cc
+		cross = c36DrawCrossing(rt, cfg, base, c36GenesisTime)
+		c.Class("crossing:" + cross.name)
+		rt.Logf("fork crossing: %s", cross.desc)
+	} else {
+		c.Class("fork:" + w.Variant.Name)
+	}
+	genesisPrague := cfg.IsPrague(new(big.Int), c36GenesisTime)
 
 	// Genesis: worldgen's, plus the accounts of the local transaction constructors.
 	gen := *w.Genesis
+	gen.Config = cfg
 	gen.Difficulty = new(big.Int)
-	gen.Timestamp = 9000
+	gen.Timestamp = c36GenesisTime
 	alloc := types.GenesisAlloc{}
 	for a, acc := range w.Genesis.Alloc {
 		alloc[a] = acc
+	}
+	blocks := w.Blocks
+	if crossing {
+		// The system contracts of the scheduled forks are deployed before the activation.
+		for a, acc := range worldgen.SystemAlloc(worldgen.VariantByName("osaka")) {
+			alloc[a] = acc
+		}
+		// A hot blob market at genesis: excess blob gas / blob gas used around the targets of
+		// the schedule active at genesis and of the first scheduled one (in blobs).
+		oldT := uint64(eip4844.TargetBlobsPerBlock(cfg, c36GenesisTime))
+		newT := uint64(eip4844.TargetBlobsPerBlock(cfg, cross.times[0]))
+		lo, hi := min(oldT, newT), max(oldT, newT)
+		oldMax := uint64(eip4844.MaxBlobsPerBlock(cfg, c36GenesisTime))
+		excess := []uint64{0, (lo - 1) * params.BlobTxBlobGasPerBlob, lo * params.BlobTxBlobGasPerBlob, (lo + hi + 1) / 2 * params.BlobTxBlobGasPerBlob,
+			hi * params.BlobTxBlobGasPerBlob, (hi + 4) * params.BlobTxBlobGasPerBlob, (hi + 40) * params.BlobTxBlobGasPerBlob, 10_000_000,
+			60_000_000}[c36Pick(rt, "genesis-excess-blob-gas", []int{2, 2, 2, 3, 2, 3, 2, 1, 1})]
+		used := []uint64{0, 1, oldT, oldMax}[c36Pick(rt, "genesis-blob-gas-used", []int{3, 1, 2, 2})] * params.BlobTxBlobGasPerBlob
+		gen.ExcessBlobGas, gen.BlobGasUsed = &excess, &used
+		rt.Logf("genesis excessBlobGas %d blobGasUsed %d", excess, used)
+		blocks = append([]*worldgen.BlockPlan{}, w.Blocks...)
+		if len(blocks) > len(cross.plan) {
+			blocks = blocks[:len(cross.plan)]
+		}
+		for len(blocks) < len(cross.plan) {
+			blocks = append(blocks, c36ExtraPlan(rt, w))
+		}
 	}
 	eth1 := new(big.Int).Exp(big.NewInt(10), big.NewInt(18), nil)
 	for _, k := range append(append([]worldgen.Key{}, c36BlobKeys...), c36AttackKey, c36GapKey, c36CheapKey, c36ReqKey) {
 		alloc[k.Addr] = types.Account{Balance: new(big.Int).Mul(big.NewInt(100), eth1)}
 	}
 	alloc[c36DrainerAt] = types.Account{Nonce: 1, Code: c36DrainerCode(), Balance: new(big.Int)}
-	if isPrague {
+	if genesisPrague {
 		alloc[c36VictimKey.Addr] = types.Account{Nonce: 1, Code: types.AddressToDelegation(c36DrainerAt), Balance: new(big.Int).Div(eth1, big.NewInt(20))}
 	}
 	gen.Alloc = alloc
@@ -386,14 +587,31 @@ func (r *c36Run) one(rt *rapid.T, variants []worldgen.Variant) {
 		sample     []map[string]any
 	)
 	slot := uint64(100)
-	for round, bp := range w.Blocks {
+	for round, bp := range blocks {
 		head := chain.CurrentBlock()
 		hst, err := chain.StateAt(head)
 		if err != nil {
 			rt.Fatalf("VERIF-HARNESS-BUG: head state: %v", err)
 		}
-		ts := head.Time + []uint64{1, 5, 12, 1000}[ep.Uniform(rt, "time-step", 4)]
+		var ts uint64
+		if crossing {
+			ts = cross.plan[round]
+		} else {
+			ts = head.Time + []uint64{1, 5, 12, 1000}[ep.Uniform(rt, "time-step", 4)]
+		}
 		number := new(big.Int).Add(head.Number, big.NewInt(1))
+		// Rules and engine API version of this payload's timestamp.
+		fork := c36ForkAt(cfg, ts)
+		isPrague := cfg.IsPrague(number, ts)
+		isOsaka := cfg.IsOsaka(number, ts)
+		isAmsterdam := cfg.IsAmsterdam(number, ts)
+		// The excess blob gas of the payload depends on the schedule of the payload's own
+		// timestamp; scheduleMatters: the parent's schedule would give another value.
+		crossed, scheduleMatters := false, false
+		if crossing {
+			crossed = cfg.LatestFork(head.Time) != cfg.LatestFork(ts)
+			scheduleMatters = eip4844.CalcExcessBlobGas(cfg, head, ts) != eip4844.CalcExcessBlobGas(cfg, head, head.Time)
+		}
 		nextBase := eip1559.CalcBaseFee(cfg, head)
 		excess := eip4844.CalcExcessBlobGas(cfg, head, ts)
 		blobBase := eip4844.CalcBlobFee(cfg, &types.Header{Number: number, Time: ts, ExcessBlobGas: &excess})
@@ -460,7 +678,7 @@ func (r *c36Run) one(rt *rapid.T, variants []worldgen.Variant) {
 		}
 		// execution-layer requests: a withdrawal request (EIP-7002) and/or a consolidation
 		// request (EIP-7251), so that the payload's request list is not empty
-		if isPrague && rapid.Bool().Draw(rt, "requests") {
+		if (isPrague || crossing) && rapid.Bool().Draw(rt, "requests") {
 			nonce := ethservice.TxPool().PoolNonce(c36ReqKey.Addr)
 			which := ep.Uniform(rt, "request-kind", 3)
 			mk := func(to common.Address, n int) *types.Transaction {
@@ -479,7 +697,7 @@ func (r *c36Run) one(rt *rapid.T, variants []worldgen.Variant) {
 		}
 		// drain pair: the victim's own transaction is pooled while it can pay; the attacker's
 		// call (higher tip, ordered first) moves the victim's balance away.
-		if isPrague && round == 0 && rapid.Bool().Draw(rt, "drain") {
+		if genesisPrague && round == 0 && rapid.Bool().Draw(rt, "drain") {
 			lowTip := big.NewInt(max(tipFloor, 1))
 			vtx := types.MustSignNewTx(c36VictimKey.Priv, signer, &types.DynamicFeeTx{ChainID: cfg.ChainID, Nonce: ethservice.TxPool().PoolNonce(c36VictimKey.Addr),
 				GasTipCap: lowTip, GasFeeCap: new(big.Int).Add(nextBase, lowTip), Gas: 60_000, To: &c36DrainSink, Value: big.NewInt(7)})
@@ -493,12 +711,11 @@ func (r *c36Run) one(rt *rapid.T, variants []worldgen.Variant) {
 		// ---- request the payload -----------------------------------------------------
 		random := common.BytesToHash(rapid.SliceOfN(rapid.Byte(), 32, 32).Draw(rt, "prevrandao"))
 		root := common.BytesToHash(rapid.SliceOfN(rapid.Byte(), 32, 32).Draw(rt, "beacon-root"))
-		wds := bp.Withdrawals
-		if wds == nil {
-			wds = []*types.Withdrawal{}
-		}
-		for i, wd := range wds {
-			wd.Index = uint64(round*16 + i)
+		wds := []*types.Withdrawal{}
+		for i, wd := range bp.Withdrawals {
+			cp := *wd
+			cp.Index = uint64(round*16 + i)
+			wds = append(wds, &cp)
 		}
 		attrs := &engine.PayloadAttributes{Timestamp: ts, Random: random, SuggestedFeeRecipient: bp.Coinbase, Withdrawals: wds, BeaconRoot: &root}
 		var target uint64
@@ -563,8 +780,12 @@ func (r *c36Run) one(rt *rapid.T, variants []worldgen.Variant) {
 		hdr := block.Header()
 
 		// (3) block-level rules
+		rules := w.Variant.Name
+		if crossing {
+			rules = fmt.Sprintf("%s, timestamp %d on parent at %d", cross.name, ts, head.Time)
+		}
 		fail := func(format string, args ...any) {
-			rt.Fatalf("round %d (%s, block %d, %d txs): "+format, append([]any{round, w.Variant.Name, P.Number, len(txs)}, args...)...)
+			rt.Fatalf("round %d (%s, block %d, %d txs): "+format, append([]any{round, rules, P.Number, len(txs)}, args...)...)
 		}
 		switch {
 		case P.ParentHash != head.Hash():
@@ -586,7 +807,12 @@ func (r *c36Run) one(rt *rapid.T, variants []worldgen.Variant) {
 		case P.BaseFeePerGas.Cmp(nextBase) != 0:
 			fail("base fee %v, expected %v", P.BaseFeePerGas, nextBase)
 		case P.ExcessBlobGas == nil || *P.ExcessBlobGas != excess:
-			fail("excess blob gas differs from the expected %d", excess)
+			have := "nil"
+			if P.ExcessBlobGas != nil {
+				have = fmt.Sprint(*P.ExcessBlobGas)
+			}
+			fail("excess blob gas %s, header verification expects %d (parent excess %d + used %d under the schedule of the payload's timestamp)",
+				have, excess, *head.ExcessBlobGas, *head.BlobGasUsed)
 		}
 		for i, wd := range wds {
 			if *P.Withdrawals[i] != *wd {
@@ -766,15 +992,41 @@ func (r *c36Run) one(rt *rapid.T, variants []worldgen.Variant) {
 		if len(envelope.Requests) > 0 {
 			c.Class("payload:has-requests")
 		}
-		if (failedTx > 0 && len(senders) >= 2) || types_[types.BlobTxType] > 0 || types_[types.SetCodeTxType] > 0 {
+		if crossing {
+			c.Class("payload-rules:" + cfg.LatestFork(ts).String())
+			if crossed {
+				c.Class("crossing:first-block-of-fork-on-parent-of-previous-fork")
+				for _, f := range cross.times {
+					if f == ts {
+						c.Class("crossing:first-block-exactly-at-activation-time")
+					}
+				}
+				if len(envelope.Requests) > 0 {
+					c.Class("crossing:first-block-carries-requests")
+				}
+			}
+			if scheduleMatters {
+				c.Class("crossing:excess-blob-gas-depends-on-the-payload's-own-schedule")
+			}
+			if *P.ExcessBlobGas > 0 {
+				c.Class("crossing:payload-excess-blob-gas>0")
+			}
+		}
+		if (failedTx > 0 && len(senders) >= 2) || types_[types.BlobTxType] > 0 || types_[types.SetCodeTxType] > 0 || scheduleMatters {
 			nonTrivial = true
 		}
 		desc = append(desc, P.BlockHash.Hex())
 		sample = append(sample, map[string]any{"number": P.Number, "hash": P.BlockHash.Hex(), "txs": len(txs), "failed": failedTx, "senders": len(senders),
-			"blobs": nblobs, "gasUsed": P.GasUsed, "gasLimit": P.GasLimit, "offered": offered, "rolledBack": len(revTxs), "withdrawals": len(wds)})
+			"blobs": nblobs, "gasUsed": P.GasUsed, "gasLimit": P.GasLimit, "offered": offered, "rolledBack": len(revTxs), "withdrawals": len(wds),
+			"timestamp": ts, "excessBlobGas": *P.ExcessBlobGas})
 	}
 	c.NonTrivial(nonTrivial, strings.Join(desc, ","))
 	c.Sample(nonTrivial, func() any {
-		return map[string]any{"fork": w.Variant.Name, "world": w.Describe(), "payloads": sample}
+		m := map[string]any{"fork": w.Variant.Name, "world": w.Describe(), "payloads": sample}
+		if crossing {
+			m["crossing"] = cross.desc
+			m["genesisExcessBlobGas"], m["genesisBlobGasUsed"] = *gen.ExcessBlobGas, *gen.BlobGasUsed
+		}
+		return m
 	})
 }
